@@ -259,7 +259,7 @@ def suite_oracle(ctx, br, progs, con, stats, dialects, label):
                 nbad_text += 1
                 ctx.disagreement("identifier text", f"the text Model.Names.emitIdent predicts for {n!r} does not occur in the SQL", {"prql": src, "sql": sql, "model": mtext[n]})
         renamed = None
-        if k in pred:
+        if k in pred and tid != "loop-join-subquery":      # nested sub-queries of a recursive step get no CTE name: not modelled
             tabs, m = pred[k]
             if m.startswith("ok "):
                 assigned = [dec(x) for x in m.split(" ", 2)[2].split(";")] if len(m.split(" ", 2)) > 2 else []
